@@ -37,6 +37,13 @@ CHECKS["C02"] = (
     "5.C02",
 )
 
+CHECKS["C09"] = (
+    "bounded symbolic execution (CrossHair+z3) over a symbolic reference DAG, generate flags, missing reference and document permutation; real load paths + conversion compared with the canonical order",
+    "K=4 (quick) / 5 (thorough) documents; every reference DAG over them, every generate-flag combination, an optional missing reference, every permutation, three load paths (from_dicts, from_yaml, merge at every split). Oracle: referenced rules precede referrers in SigmaCollection.rules, identical per-rule results and query multiset as the canonical order, expected number of emitted queries, SigmaRuleNotFoundError at load for a missing reference.",
+    TB,
+    "5.C09",
+)
+
 NOT_APPLICABLE = {}
 
 ALL = [f"C{n:02d}" for n in range(1, 21)]
